@@ -11,7 +11,9 @@ ANCHORS = [("deap/tools/constraint.py", ["DeltaPenalty", "ClosestValidPenalty"])
 LEVEL = "proof"
 RULE = ("exhaustive: every weight-sign pattern in {+,-,0}^n for n=1..4 (random magnitudes) x {DeltaPenalty, "
         "ClosestValidPenalty} x scalar/per-objective delta x absent/scalar/vector distance, infeasible and feasible, "
-        "random dyadic values; random: n<=6, extra positional/keyword arguments, closest point identical to the "
+        "random dyadic values; sequences: 2-4 calls through ONE decorator instance with individuals of different fitness "
+        "classes (sign pattern, number of objectives), feasible/infeasible mixed, different extras, every call compared "
+        "with the stateless model and checked by the oracle; random: n<=6, extra positional/keyword arguments, closest point identical to the "
         "individual, mis-sized vectors (zip truncation / IndexError guard; model comparison only). "
         "Non-trivial = distinct infeasible case, or feasible case with a distance function or extras")
 EXHAUSTIVE = {"quick": False, "thorough": False}
@@ -27,7 +29,11 @@ ASSUMPTIONS = ["distances and alpha are non-negative finite numbers; constants, 
                "oracle accepts either direction there while the model follows the code"]
 EXPLANATION = ("Theorems C19.* are proved for every linearly ordered ring, every number of objectives and all "
                "feasibility/distance/closest/evaluation functions; the correspondence ties Core/Penalty.lean to "
-               "deap.tools.constraint on exactly-representable inputs, including the call log of the wrapped function.")
+               "deap.tools.constraint on exactly-representable inputs, including the call log of the wrapped function. "
+               "The model decorator is a pure function of its arguments (feasibility, constants, distance, weights of THIS "
+               "individual, evaluation function, extras) — theorem C19.decorators_stateless — so every call of a call "
+               "sequence through one decorator instance is compared with the model on its own: any dependence of the "
+               "implementation on earlier calls (cached weights, exhausted iterators) is a disagreement and an oracle failure.")
 
 
 def sfr(q):
@@ -111,176 +117,215 @@ def worse_ok(w, pen, base_v, move):
     return pen == base_v - move or pen == base_v + move
 
 
-def evaluate(d):
-    k = d["k"]
-    ws = [Fr(x) for x in d["w"]]
-    n = len(ws)
-    ints = bool(d.get("ints"))
-    seqtype = list if d.get("lists") else tuple
-    wpy = tuple(int(w) if ints and w.denominator == 1 else num(w) for w in ws)
-    x = Ind([1, 2, 3])
-    x.fitness = fit_class(wpy)()
-    cid = d.get("cid", 1)
-    c = x if (k == "closest" and cid == 0) else Ind([0, 0, 0])
-    table = {id(x): [Fr(v) for v in d["f0"]]}
-    if c is not x:
-        table[id(c)] = [Fr(v) for v in d.get("fc", d["f0"])]
-    feas = bool(d["feas"])
-    shift = Fr(d.get("shift", "0"))
-    args = list(d.get("args", []))
-    kwargs = dict(d.get("kwargs", {}))
-    shift_mode = d.get("shift_mode", "pos")       # pos | kw | absent
-    if shift_mode == "absent":
-        shift, args = Fr(0), []
-    if shift_mode == "kw":
-        args = []
+class Call(object):
+    """one call of the decorated function: its individual, closest point, tables and extras"""
 
-    calls = []
-    feas_calls = []
-    closest_calls = []
-    dist_calls = []
+    def __init__(self, d, kind):
+        self.d = d
+        self.ws = [Fr(x) for x in d["w"]]
+        self.n = len(self.ws)
+        self.ints = bool(d.get("ints"))
+        self.seqtype = list if d.get("lists") else tuple
+        wpy = tuple(int(w) if self.ints and w.denominator == 1 else num(w) for w in self.ws)
+        self.x = Ind([1, 2, 3])
+        self.x.fitness = fit_class(wpy)()
+        cid = d.get("cid", 1)
+        self.c = self.x if (kind == "closest" and cid == 0) else Ind([0, 0, 0])
+        self.f0 = [Fr(v) for v in d["f0"]]
+        self.fc = self.f0 if self.c is self.x else [Fr(v) for v in d.get("fc", d["f0"])]
+        self.feas = bool(d["feas"])
+        self.shift = Fr(d.get("shift", "0"))
+        self.args = list(d.get("args", []))
+        self.kwargs = dict(d.get("kwargs", {}))
+        self.shift_mode = d.get("shift_mode", "pos")       # pos | kw | absent
+        if self.shift_mode == "absent":
+            self.shift, self.args = Fr(0), []
+        if self.shift_mode == "kw":
+            self.args = []
+        self.dist = d.get("dist")
+        self.inc = [Fr(v) for v in d.get("inc", ["1"])]
+        self.round = 0
+
+    def cur_dist(self):
+        return self.dist if self.round == 0 else sv_add(self.dist, self.inc)
+
+
+def evaluate(d):
+    """One decorator instance, one decorated function, a SEQUENCE of calls (a single call for the kinds
+    `delta` / `closest`).  The model decorator is a pure function of its arguments, so every call is sent to
+    the model on its own; any dependence of the implementation on earlier calls shows up as a disagreement
+    and as an oracle failure."""
+    if d["k"] == "seq":
+        k, call_descs = d["deco"], d["calls"]
+    else:
+        k, call_descs = d["k"], [d]
+    has_dist = d["has_dist"] if "has_dist" in d else (call_descs[0].get("dist") is not None)
+    dints = bool(d.get("ints"))
+    dseq = list if d.get("lists") else tuple
+    cs = [Call(cd, k) for cd in call_descs]
+    owner = {}                  # id(object) -> Call whose individual / closest point it is
+    table = {}
+    for c in cs:
+        owner[id(c.x)] = c
+        owner.setdefault(id(c.c), c)
+        table[id(c.x)] = c.f0
+        if c.c is not c.x:
+            table[id(c.c)] = c.fc
+    state = {"cur": None}
+    calls, feas_calls = [], []
 
     def func(individual, shift=0, *a, **kw):
         calls.append((individual, shift, a, kw))
-        return seqtype(num(v + Fr(shift)) for v in table[id(individual)])
+        cur = state["cur"]
+        return cur.seqtype(num(v + Fr(shift)) for v in table[id(individual)])
 
     def feasibility(individual):
         feas_calls.append(individual)
-        return feas
+        return owner[id(individual)].feas if id(individual) in owner else state["cur"].feas
 
     def closest(individual):
-        closest_calls.append(individual)
-        return c
-
-    dist_desc = d.get("dist")
-    inc = [Fr(v) for v in d.get("inc", ["1"])]
-    dist_state = {"round": 0}
-
-    def cur_dist():
-        return dist_desc if dist_state["round"] == 0 else sv_add(dist_desc, inc)
+        return owner[id(individual)].c
 
     def distance1(individual):
-        dist_calls.append((individual,))
-        return sv_py(cur_dist(), ints, seqtype)
+        c = owner.get(id(individual), state["cur"])
+        return sv_py(c.cur_dist(), c.ints, c.seqtype)
 
     def distance2(f_ind, individual):
-        dist_calls.append((f_ind, individual))
-        if f_ind is c and individual is x:
-            return sv_py(cur_dist(), ints, seqtype)
-        # wrong argument order: a visibly different distance of the same shape
-        wrong = cur_dist()
-        return sv_py(sv_add(wrong, [Fr(1000)]), ints, seqtype)
+        cur = state["cur"]
+        if f_ind is cur.c and individual is cur.x:
+            return sv_py(cur.cur_dist(), cur.ints, cur.seqtype)
+        # wrong argument order / wrong objects: a visibly different distance of the same shape
+        return sv_py(sv_add(cur.cur_dist(), [Fr(1000)]), cur.ints, cur.seqtype)
 
     if k == "delta":
         cls = constraint.DeltaPenality if d.get("alias") else constraint.DeltaPenalty
-        deco = cls(feasibility, sv_py(d["delta"], ints, seqtype),
-                   *([] if dist_desc is None else [distance1]))
+        deco = cls(feasibility, sv_py(d["delta"], dints, dseq), *([distance1] if has_dist else []))
     else:
         cls = constraint.ClosestValidPenality if d.get("alias") else constraint.ClosestValidPenalty
         alpha = Fr(d["alpha"])
-        deco = cls(feasibility, closest, int(alpha) if ints and alpha.denominator == 1 else num(alpha),
-                   *([] if dist_desc is None else [distance2]))
+        deco = cls(feasibility, closest, int(alpha) if dints and alpha.denominator == 1 else num(alpha),
+                   *([distance2] if has_dist else []))
     wrapped = deco(func)
 
-    def call():
+    def call(c):
         del calls[:]
-        pos = ([num(shift)] if shift_mode == "pos" else []) + args
-        kw = dict(kwargs)
-        if shift_mode == "kw":
-            kw["shift"] = num(shift)
+        state["cur"] = c
+        pos = ([num(c.shift)] if c.shift_mode == "pos" else []) + c.args
+        kw = dict(c.kwargs)
+        if c.shift_mode == "kw":
+            kw["shift"] = num(c.shift)
         try:
-            return wrapped(x, *pos, **kw), None
+            return wrapped(c.x, *pos, **kw), None
         except IndexError as e:
             return None, e
 
-    res, exc = call()
-    calls1 = list(calls)
-    ident = lambda o: 0 if o is x else (1 if o is c else 9)
-    call_tok = ",".join("%d:%s:%s" % (ident(i), sfr(Fr(s)), tag_of(a, kw)) for (i, s, a, kw) in calls1) or "-"
-    res_tok = "raise" if exc is not None else slist(Fr(v) for v in res)
-    tag_sent = tag_of(args, kwargs)
-    if k == "delta":
-        line = "C19 delta %d %s %s %s %s %s %s" % (feas, slist(ws), sv_tok(d["delta"]), sv_tok(dist_desc),
-                                                    slist(table[id(x)]), sfr(shift), tag_sent)
-    else:
-        line = "C19 closest %d %s %s %s %d %s %s %s %s" % (
-            feas, slist(ws), sfr(Fr(d["alpha"])), sv_tok(dist_desc), 0 if c is x else 1,
-            slist(table[id(x)]), slist(table[id(c)]), sfr(shift), tag_sent)
-    expect = "%s | %s" % (res_tok, call_tok)
-
-    # ---------------- oracle: the statement itself, on the implementation's outputs ----------------
-    orc = None
-    extras_ok = lambda cl: (Fr(cl[1]) == shift and list(cl[2]) == args and cl[3] == kwargs)
-    premise = True
-    if feas:
-        plain = seqtype(num(v + shift) for v in table[id(x)])      # what the undecorated function returns
-        if exc is not None:
-            orc = "feasible individual: decorated function raised %r" % (exc,)
-        elif res != plain or type(res) is not type(plain):
-            orc = "feasible individual: decorated function returned %r, undecorated returns %r" % (res, plain)
-        elif len(calls1) != 1 or calls1[0][0] is not x or not extras_ok(calls1[0]):
-            orc = "feasible individual: evaluation function was not called exactly once on the individual with the extras"
-    elif k == "delta":
-        premise = well_sized(d["delta"], n) and well_sized(dist_desc, n)
-        if premise:
-            if calls1:
-                orc = "infeasible individual: the evaluation function was called (%d times)" % len(calls1)
-            elif exc is not None or len(res) != n:
-                orc = "infeasible individual: expected %d penalised objectives, got %r %r" % (n, res, exc)
-            else:
-                pen = [Fr(v) for v in res]
-                for i in range(n):
-                    di, dl = sv_at(dist_desc, i, n), sv_at(d["delta"], i, n)
-                    if not worse_ok(ws[i], pen[i], dl, di):
-                        orc = "objective %d: penalised value %s is not constant %s moved by distance %s in the worse direction for weight %s" % (i, pen[i], dl, di, ws[i])
-                        break
-                    if ws[i] * pen[i] > ws[i] * dl:
-                        orc = "objective %d: penalised value better than the constant" % i
-                        break
-    else:
-        premise = well_sized(dist_desc, n)
-        fc_shifted = [v + shift for v in table[id(c)]]
-        if len(fc_shifted) != n:
-            premise = False          # size guard of the code; model comparison only
-        if premise:
-            if len(calls1) != 1 or calls1[0][0] is not c or not extras_ok(calls1[0]):
-                orc = "infeasible individual: evaluation function must be called exactly once, on the closest valid point, with the extras; calls=%s" % call_tok
-            elif exc is not None or len(res) != n:
-                orc = "infeasible individual: expected %d penalised objectives, got %r %r" % (n, res, exc)
-            else:
-                pen = [Fr(v) for v in res]
-                alpha = Fr(d["alpha"])
-                for i in range(n):
-                    di = sv_at(dist_desc, i, n)
-                    if not worse_ok(ws[i], pen[i], fc_shifted[i], alpha * di):
-                        orc = "objective %d: penalised value %s is not the closest valid fitness %s moved by alpha*distance %s*%s in the worse direction for weight %s" % (i, pen[i], fc_shifted[i], alpha, di, ws[i])
-                        break
-                    if ws[i] * pen[i] > ws[i] * fc_shifted[i]:
-                        orc = "objective %d: penalised value better than the closest valid fitness" % i
-                        break
-    # never improves as the distance grows: same decorated function, larger distance
-    if orc is None and premise and not feas and dist_desc is not None and exc is None:
-        dist_state["round"] = 1
-        res2, exc2 = call()
-        if exc2 is not None or len(res2) != len(res):
-            orc = "second call with a larger distance failed: %r %r" % (res2, exc2)
-        else:
-            for i in range(n):
-                if ws[i] * Fr(res2[i]) > ws[i] * Fr(res[i]):
-                    orc = "objective %d improved (%s -> %s) when the distance grew" % (i, res[i], res2[i])
-                    break
-        dist_state["round"] = 0
-    if orc is None and feas_calls and any(o is not x for o in feas_calls):
-        orc = "feasibility function received something else than the individual"
-
     kind = lambda v: "absent" if v is None else ("scalar" if "s" in v else "vector")
-    tag = "%s/%s/%s/dist=%s/n=%d%s%s" % (
-        k, "feasible" if feas else "infeasible",
-        ("delta=" + kind(d["delta"])) if k == "delta" else ("closest=" + ("self" if c is x else "other")),
-        kind(dist_desc), n, "" if premise else "/missized",
-        "/extras" if (args or kwargs) and shift_mode != "absent" else "")
-    nontrivial = (not feas) or dist_desc is not None or bool(args or kwargs)
-    return Case(d, [line], [expect], orc, tag=tag, nontrivial=nontrivial)
+    lines, expects, tags = [], [], []
+    first_orc = None
+    any_nontrivial = False
+    for ci, c in enumerate(cs):
+        if not has_dist:
+            c.dist = None
+        elif c.dist is None:
+            c.dist = {"s": "0"}
+        ws, n, x, feas, shift, args, kwargs = c.ws, c.n, c.x, c.feas, c.shift, c.args, c.kwargs
+        dist_desc = c.dist
+        res, exc = call(c)
+        calls1 = list(calls)
+        ident = lambda o: 0 if o is x else (1 if o is c.c else 9)
+        call_tok = ",".join("%d:%s:%s" % (ident(i), sfr(Fr(s_)), tag_of(a, kw)) for (i, s_, a, kw) in calls1) or "-"
+        res_tok = "raise" if exc is not None else slist(Fr(v) for v in res)
+        tag_sent = tag_of(args, kwargs)
+        if k == "delta":
+            line = "C19 delta %d %s %s %s %s %s %s" % (feas, slist(ws), sv_tok(d["delta"]), sv_tok(dist_desc),
+                                                        slist(c.f0), sfr(shift), tag_sent)
+        else:
+            line = "C19 closest %d %s %s %s %d %s %s %s %s" % (
+                feas, slist(ws), sfr(Fr(d["alpha"])), sv_tok(dist_desc), 0 if c.c is x else 1,
+                slist(c.f0), slist(c.fc), sfr(shift), tag_sent)
+        lines.append(line)
+        expects.append("%s | %s" % (res_tok, call_tok))
+
+        # ---------------- oracle: the statement itself, on the implementation's outputs ----------------
+        orc = None
+        extras_ok = lambda cl: (Fr(cl[1]) == shift and list(cl[2]) == args and cl[3] == kwargs)
+        premise = True
+        if feas:
+            plain = c.seqtype(num(v + shift) for v in c.f0)      # what the undecorated function returns
+            if exc is not None:
+                orc = "feasible individual: decorated function raised %r" % (exc,)
+            elif res != plain or type(res) is not type(plain):
+                orc = "feasible individual: decorated function returned %r, undecorated returns %r" % (res, plain)
+            elif len(calls1) != 1 or calls1[0][0] is not x or not extras_ok(calls1[0]):
+                orc = "feasible individual: evaluation function was not called exactly once on the individual with the extras"
+        elif k == "delta":
+            premise = well_sized(d["delta"], n) and well_sized(dist_desc, n)
+            if premise:
+                if calls1:
+                    orc = "infeasible individual: the evaluation function was called (%d times)" % len(calls1)
+                elif exc is not None or len(res) != n:
+                    orc = "infeasible individual: expected %d penalised objectives, got %r %r" % (n, res, exc)
+                else:
+                    pen = [Fr(v) for v in res]
+                    for i in range(n):
+                        di, dl = sv_at(dist_desc, i, n), sv_at(d["delta"], i, n)
+                        if not worse_ok(ws[i], pen[i], dl, di):
+                            orc = "objective %d: penalised value %s is not constant %s moved by distance %s in the worse direction for weight %s" % (i, pen[i], dl, di, ws[i])
+                            break
+                        if ws[i] * pen[i] > ws[i] * dl:
+                            orc = "objective %d: penalised value better than the constant" % i
+                            break
+        else:
+            premise = well_sized(dist_desc, n)
+            fc_shifted = [v + shift for v in c.fc]
+            if len(fc_shifted) != n:
+                premise = False          # size guard of the code; model comparison only
+            if premise:
+                if len(calls1) != 1 or calls1[0][0] is not c.c or not extras_ok(calls1[0]):
+                    orc = "infeasible individual: evaluation function must be called exactly once, on the closest valid point, with the extras; calls=%s" % call_tok
+                elif exc is not None or len(res) != n:
+                    orc = "infeasible individual: expected %d penalised objectives, got %r %r" % (n, res, exc)
+                else:
+                    pen = [Fr(v) for v in res]
+                    alpha = Fr(d["alpha"])
+                    for i in range(n):
+                        di = sv_at(dist_desc, i, n)
+                        if not worse_ok(ws[i], pen[i], fc_shifted[i], alpha * di):
+                            orc = "objective %d: penalised value %s is not the closest valid fitness %s moved by alpha*distance %s*%s in the worse direction for weight %s" % (i, pen[i], fc_shifted[i], alpha, di, ws[i])
+                            break
+                        if ws[i] * pen[i] > ws[i] * fc_shifted[i]:
+                            orc = "objective %d: penalised value better than the closest valid fitness" % i
+                            break
+        # never improves as the distance grows: same decorated function, larger distance
+        if orc is None and premise and not feas and dist_desc is not None and exc is None:
+            c.round = 1
+            res2, exc2 = call(c)
+            if exc2 is not None or len(res2) != len(res):
+                orc = "second call with a larger distance failed: %r %r" % (res2, exc2)
+            else:
+                for i in range(n):
+                    if ws[i] * Fr(res2[i]) > ws[i] * Fr(res[i]):
+                        orc = "objective %d improved (%s -> %s) when the distance grew" % (i, res[i], res2[i])
+                        break
+            c.round = 0
+        if orc is None and feas_calls and any(o is not x for o in feas_calls):
+            orc = "feasibility function received something else than the individual"
+        del feas_calls[:]
+        if orc is not None and first_orc is None:
+            first_orc = orc if len(cs) == 1 else "call %d of %d through one decorator: %s" % (ci + 1, len(cs), orc)
+        tags.append("%s/%s/%s/dist=%s/n=%d%s%s" % (
+            k, "feasible" if feas else "infeasible",
+            ("delta=" + kind(d["delta"])) if k == "delta" else ("closest=" + ("self" if c.c is x else "other")),
+            kind(dist_desc), n, "" if premise else "/missized",
+            "/extras" if (args or kwargs) and c.shift_mode != "absent" else ""))
+        any_nontrivial = any_nontrivial or (not feas) or dist_desc is not None or bool(args or kwargs)
+    if len(cs) == 1:
+        tag = tags[0]
+    else:
+        pats = set("".join("+" if w > 0 else "-" if w < 0 else "0" for w in c.ws) for c in cs)
+        tag = "seq/%s/calls=%d/infeasible=%d/sign-patterns=%d/lengths=%d" % (
+            k, len(cs), sum(1 for c in cs if not c.feas), len(pats), len(set(c.n for c in cs)))
+    return Case(d, lines, expects, first_orc, tag=tag, nontrivial=any_nontrivial)
 
 
 # ----------------------------------------------------------------------------------------------
@@ -355,6 +400,32 @@ def make(rng, k, signs, feas, dkind, distkind, big=False, missize=False):
     return d
 
 
+def make_seq(rng):
+    """2-4 calls through ONE decorator instance: individuals of different fitness classes (sign pattern,
+    magnitudes, number of objectives), feasible and infeasible mixed, different extras per call."""
+    k = rng.choice(["delta", "closest"])
+    ncalls = rng.randint(2, 4)
+    same_len = rng.random() < 0.6
+    n0 = rng.randint(1, 4)
+    has_dist = rng.random() < 0.7
+    dkind = rng.choice(["scalar", "vector"]) if same_len else "scalar"
+    calls, base = [], None
+    for j in range(ncalls):
+        n = n0 if same_len else rng.randint(1, 4)
+        signs = [rng.choice([1, 1, -1, -1, 0]) for _ in range(n)]
+        feas = rng.random() < 0.25
+        distkind = rng.choice(["scalar", "vector"]) if has_dist else "absent"
+        c = make(rng, k, signs, feas, dkind, distkind)
+        if base is None:
+            base = c
+        calls.append(dict((key, v) for key, v in c.items() if key not in ("k", "delta", "alpha", "alias")))
+    d = {"k": "seq", "deco": k, "has_dist": has_dist, "calls": calls}
+    for key in ("delta", "alpha", "alias", "ints", "lists"):
+        if key in base:
+            d[key] = base[key]
+    return d
+
+
 def generate(tier, rng, mult):
     thorough = tier == "thorough"
     reps = (8 if thorough else 1) * mult
@@ -369,6 +440,8 @@ def generate(tier, rng, mult):
                 yield make(rng, "delta", signs, True, rng.choice(["scalar", "vector"]),
                            rng.choice(["absent", "scalar", "vector"]))
                 yield make(rng, "closest", signs, True, None, rng.choice(["absent", "scalar", "vector"]))
+    for _ in range((30000 if thorough else 3000) * mult):
+        yield make_seq(rng)
     nrand = (60000 if thorough else 4000) * mult
     for _ in range(nrand):
         n = rng.choice([1, 1, 2, 2, 3, 3, 4, 4, 5, 6])
@@ -379,6 +452,29 @@ def generate(tier, rng, mult):
 
 
 def shrink(d):
+    if d["k"] == "seq":
+        calls = d["calls"]
+        if len(calls) > 1:
+            for i in range(len(calls)):
+                e = dict(d)
+                e["calls"] = calls[:i] + calls[i + 1:]
+                yield e
+        for i, c in enumerate(calls):
+            for key in ("args", "kwargs", "ints", "lists"):
+                if c.get(key):
+                    c2 = dict(c)
+                    c2.pop(key)
+                    e = dict(d)
+                    e["calls"] = calls[:i] + [c2] + calls[i + 1:]
+                    yield e
+            if c.get("shift_mode", "pos") != "absent":
+                c2 = dict(c)
+                c2["shift_mode"] = "absent"
+                c2.pop("args", None)
+                e = dict(d)
+                e["calls"] = calls[:i] + [c2] + calls[i + 1:]
+                yield e
+        return
     n = len(d["w"])
     if n > 1:
         for i in range(n):
